@@ -429,7 +429,11 @@ func (sp *Specs) LoadSpecFile(path string, pkgPath string, external bool) error 
 				k = strings.Index(rest, kw)
 			}
 			if k < 0 {
-				return fail(fmt.Errorf("expected 'at <point>: assert|hint <expr>'"))
+				kw = ": cases "
+				k = strings.Index(rest, kw)
+			}
+			if k < 0 {
+				return fail(fmt.Errorf("expected 'at <point>: assert|hint|cases <expr>'"))
 			}
 			point := strings.TrimSpace(rest[:k])
 			cl, err := parseClause("assert", rest[k+len(kw):], path, ln)
@@ -438,6 +442,9 @@ func (sp *Specs) LoadSpecFile(path string, pkgPath string, external bool) error 
 			}
 			if kw == ": hint " {
 				cl.Kind = "hint"
+			}
+			if kw == ": cases " {
+				cl.Kind = "cases"
 			}
 			cur.Asserts[point] = append(cur.Asserts[point], cl)
 		case "trusted":
